@@ -229,10 +229,15 @@ def _walk_lark_tree(op, *, data_def=None) -> data_algebra.expr_rep.Term:
                         built = None
                         try:
                             built = getattr(args[0], op_name)(*args[1:])
-                        except AssertionError:
-                            pass  # e.g. a None argument: the plain function form, as before
-                        except TypeError:
-                            if op_name not in _n_ary_function_names:
+                        except (AssertionError, TypeError):
+                            # the plain function form stays for names taking any number of arguments and for None arguments
+                            if (op_name not in _n_ary_function_names) and (
+                                not any(
+                                    isinstance(ai, data_algebra.expr_rep.Value)
+                                    and (ai.value is None)
+                                    for ai in args
+                                )
+                            ):
                                 raise
                         if isinstance(built, data_algebra.expr_rep.PreTerm):
                             return built
